@@ -76,7 +76,7 @@ CHECKS = {
    engine="bfs+sched"),
  "C11": dict(
    category="model_checking",
-   text="Stateless exploration (own cooperative scheduler, iterative preemption bounding 0,1,2; 3 in the thorough tier) of every interleaving of 18 (25) scenarios of 2-3 threads on one real client.Client and its Config against the simulated KDC: two service-ticket requests for the same / different / other-realm SPNs, with and without a prior login; ticket vs login; login vs login; ticket / login vs destroy; ticket / login / destroy vs the auto-renewal goroutine woken by the clock; Client.Print (session and cache dumps) vs login / destroy; a cached-ticket hit vs a new ticket; GetKDCs / GetKpasswdServers from two threads and against a ticket request with 2-3 KDCs under every outcome of the random server order. Scheduling points: every sync.Mutex/RWMutex/Once/WaitGroup acquisition (RWMutex with writer preference), channel send/receive/select, timer, clock advance and network exchange of the rewritten sources. Invariants per schedule: no panic, no deadlock (blocked harness thread or library goroutine blocked on a lock / channel send), no livelock (horizon), operations succeed unless a destroy is in the scenario, every returned (ticket, key) pair and every cached entry / session after quiescence was issued together by the KDC, requests stay well-formed, address lookups return a permutation and leave the Config deep-equal. Sharded over worker processes on first-level subtrees. A separate free-running -race build runs the same scenario bodies (15 repetitions each; 150 thorough) for unsynchronised accesses.",
+   text="Stateless exploration (own cooperative scheduler, iterative preemption bounding 0,1,2; 3 in the thorough tier) of every interleaving of 19 (26) scenarios of 2-3 threads on one real client.Client and its Config against the simulated KDC: two service-ticket requests for the same / different / other-realm SPNs, with and without a prior login; ticket vs login; login vs login; ticket / login vs destroy; ticket / login / destroy vs the auto-renewal goroutine woken by the clock; Client.Print (session and cache dumps) vs login / destroy; a cached-ticket hit vs a new ticket; two requests for a cached ticket that has expired but is renewable; GetKDCs / GetKpasswdServers from two threads and against a ticket request with 2-3 KDCs under every outcome of the random server order. Scheduling points: every sync.Mutex/RWMutex/Once/WaitGroup acquisition (RWMutex with writer preference), channel send/receive/select, timer, clock advance and network exchange of the rewritten sources. Invariants per schedule: no panic, no deadlock (blocked harness thread or library goroutine blocked on a lock / channel send), no livelock (horizon), operations succeed unless a destroy is in the scenario, every returned (ticket, key) pair and every cached entry / session after quiescence was issued together by the KDC, requests stay well-formed, address lookups return a permutation and leave the Config deep-equal. Sharded over worker processes on first-level subtrees. A separate free-running -race build runs the same scenario bodies (15 repetitions each; 150 thorough) for unsynchronised accesses.",
    design="DESIGN.md 2/C11",
    note="The property's 2-16 goroutines and random repetitions are replaced by exhaustive schedules of 2-3 threads within a preemption bound. The -race pass is a dynamic complement (the cooperative scheduler's hand-offs hide races from the detector); reports whose racing access lies in harness or shim code are not counted. Known finding: Client.Destroy replaces cl.Credentials unsynchronised.",
    technique="stateless model checking of the implementation: exhaustive schedule enumeration under a controlled scheduler with iterative preemption bounding, plus a free-running race-detector pass",
